@@ -213,6 +213,14 @@ def opsPlan (_t : Tables) (kind op : String) (args : List String) : Option Strin
   -- LoggerAssetProvider delegates every query to the Assets it wraps
   | "J", "plan-logger-same", [_ty, _mode, _desc, _assets, a, b] =>
     pure (if a == b then "ok" else "bad:plan-through-LoggerAssetProvider-differs")
+  -- R4 used objects / construction order: the plan is a function of the descriptor's VALUE and
+  -- the assets' VALUE, and completing a plan is a function of the plan and the satisfier
+  | "J", "plan-fresh-same", [_ty, _mode, _desc, _assets, a, b] =>
+    pure (if a == b then "ok" else "bad:plan-of-a-freshly-built-descriptor-differs-from-the-used-one")
+  | "J", "plan-assets-order-same", [_ty, _mode, _desc, _assets, a, b] =>
+    pure (if a == b then "ok" else "bad:plan-depends-on-how-the-assets-were-assembled")
+  | "J", "plan-reuse-same", [_tag, _mode, _desc, _assets, which, a, b] =>
+    pure (if a == b then "ok" else "bad:Plan::satisfy-differs-on-" ++ which)
   -- an input updated by two plans and given both plans' signatures must finalize
   | "J", "psbt-finalizes", [_tag, _mode, _desc, _which, res] =>
     pure (if res == "ok" then "ok" else "bad:psbt-updated-by-plans-does-not-finalize:" ++ res)
